@@ -4,7 +4,7 @@ From Coq Require Import List NArith Bool Lia.
 From Delb.Base Require Import PyStr PyStrFacts.
 From Delb.Gen Require Import GenNames GenPretty.
 From Delb.Tree Require Import ATree Merge MergeFacts.
-From Delb.Ws Require Import Reduce ReduceFacts Pretty SimplePP.
+From Delb.Ws Require Import Reduce ReduceFacts Pretty SimplePP WsVariant.
 Import ListNotations.
 
 (* ------------------------------------------------------------------------------------------ *)
@@ -168,7 +168,7 @@ Section C18.
       destruct s; [discriminate|discriminate].
     - rewrite (kids_out_nontext _ L prev x r Et).
       rewrite has_ind_true, (legit_before_sep prev _ Hp), (legit_after_sep _ _ Hnext). cbn [andb].
-      rewrite render_item, Hrec, (Hx Et Hdx).
+      rewrite render_item, Hrec, (Hx eq_refl Hdx).
       assert (El : line L x = repeat_str ind L ++ simple_pp ind align L x ++ NL)
         by (unfold line; destruct x; try reflexivity; discriminate).
       rewrite El, <- !app_assoc. reflexivity.
@@ -196,6 +196,38 @@ Section C18.
       + exact Hk.
   Qed.
 
-  Lemma node_str_simple n : is_tag n = false -> is_text n = false -> node_str n = simple_pp ind align 0 n.
+  Lemma node_str_simple n : (is_tag n || is_text n)%bool = false -> node_str n = simple_pp ind align 0 n.
   Proof. destruct n; cbn; intros; try discriminate; reflexivity. Qed.
+
+  Theorem C18_pretty t : is_tag t = true -> data_style t = true -> reduced t -> ind <> [] -> ws_indent ind = true ->
+    pretty ind align t = simple_pp ind align 0 t.
+  Proof.
+    intros Ht Hd _ _ _. unfold pretty, pretty_chunk. apply pretty_is_simple; [|exact Hd].
+    destruct t; try discriminate; reflexivity.
+  Qed.
+
+  Lemma epilogue_lines (f : node -> str) l : l <> [] ->
+    NL ++ flat_map (fun n => f n ++ NL) (removelast l) ++ f (last l (Text [])) = flat_map (fun n => NL ++ f n) l.
+  Proof.
+    induction l as [|x r IH]; [congruence|]. intros _. destruct r as [|y r'].
+    - cbn [removelast last flat_map app]. rewrite app_nil_r. reflexivity.
+    - change (removelast (x :: y :: r')) with (x :: removelast (y :: r')).
+      change (last (x :: y :: r') (Text [])) with (last (y :: r') (Text [])).
+      cbn [flat_map]. rewrite <- IH by discriminate. rewrite <- !app_assoc. reflexivity.
+  Qed.
+
+  Theorem C18_doc pro t epi : is_tag t = true -> data_style t = true -> reduced t -> ind <> [] -> ws_indent ind = true ->
+    forallb (fun n => negb (is_tag n || is_text n)) (pro ++ epi) = true ->
+    pretty_doc ind align pro t epi = simple_doc ind align pro t epi.
+  Proof.
+    intros Ht Hd Hr Hi Hw Hm. unfold pretty_doc, doc_out, simple_doc.
+    rewrite (C18_pretty t Ht Hd Hr Hi Hw). rewrite forallb_app in Hm. apply andb_prop in Hm as [Hp He].
+    f_equal. f_equal. f_equal.
+    - apply flat_map_ext_in. intros n Hin. rewrite forallb_forall in Hp. specialize (Hp n Hin).
+      apply negb_true_iff in Hp. rewrite (node_str_simple n Hp). reflexivity.
+    - f_equal. destruct epi as [|e0 er]; [reflexivity|].
+      rewrite epilogue_lines by discriminate. apply flat_map_ext_in. intros n Hin.
+      rewrite forallb_forall in He. specialize (He n Hin). apply negb_true_iff in He.
+      rewrite (node_str_simple n He). reflexivity.
+  Qed.
 End C18.
